@@ -1,4 +1,136 @@
+//! awcx — decides C17 (HTTP client: body complete or error, never cut; pool discipline) by
+//! fault enumeration + deviation-bounded exploration of the real `awc::Client` against a scripted
+//! in-memory server (DESIGN.md §4 C17).
+
+mod exec;
+mod framing;
+mod oracle;
+mod scen;
+
+use exec::Scen;
+use mc_core::explore::{explore, Cfg, Outcome, Scenario};
+use mc_core::report::{read_replay, Evidence, Reporter};
+use mc_core::Chooser;
+use serde_json::{json, Value};
+use std::time::{Duration, Instant};
+
+impl Scenario for Scen {
+    fn name(&self) -> String {
+        scen::name(self)
+    }
+    fn describe(&self) -> Value {
+        serde_json::to_value(self).unwrap()
+    }
+    fn run(&self, ch: &mut Chooser) -> Outcome {
+        let obs = exec::run(self, ch);
+        if obs.step_cap {
+            mc_core::machinery(format!("step cap reached in scenario {}", scen::name(self)));
+        }
+        let violations = oracle::check(self, &obs);
+        let canon = oracle::canonical(self, &obs);
+        let devs = ch.deviations();
+        let nontrivial = oracle::nontrivial(self, devs);
+        let sample = if devs <= 1 {
+            Some(json!({
+                "scenario": scen::name(self),
+                "picks": ch.picks(),
+                "observation": oracle::summary(self, &obs),
+            }))
+        } else {
+            None
+        };
+        Outcome { violations, class: mc_core::fnv_str(&canon), nontrivial, sample }
+    }
+}
+
 fn main() {
-    eprintln!("MACHINERY: engine awcx is not built yet");
-    std::process::exit(2);
+    let args = mc_core::cli::parse();
+    if args.property != "C17" {
+        eprintln!("MACHINERY: awcx serves C17 only");
+        std::process::exit(2);
+    }
+    if let Some(path) = &args.replay {
+        let v = read_replay(path);
+        let rep = &v["replay"];
+        let sc: Scen = match serde_json::from_value(rep["describe"].clone()) {
+            Ok(s) => s,
+            Err(e) => {
+                eprintln!("MACHINERY: replay file does not describe a scenario: {e}");
+                std::process::exit(2);
+            }
+        };
+        println!("replaying scenario {}", scen::name(&sc));
+        println!("picks: {}", rep["picks"]);
+        let scs = vec![sc];
+        let (out, trace) = mc_core::explore::replay(&scs, rep);
+        for (i, p) in trace.iter().enumerate() {
+            if p.pick != 0 {
+                println!("  deviation at choice {i}: {} pick {} of {}", p.kind, p.pick, p.n);
+            }
+        }
+        // print what happened
+        let mut ch = Chooser::new(trace.iter().map(|p| p.pick).collect());
+        let obs = exec::run(&scs[0], &mut ch);
+        println!("{}", serde_json::to_string_pretty(&oracle::summary(&scs[0], &obs)).unwrap());
+        if out.violations.is_empty() {
+            println!("no violation on replay");
+            std::process::exit(0);
+        }
+        for v in &out.violations {
+            println!("VIOLATION clause={} signature={}\n  {}", v.clause, v.signature, v.what);
+        }
+        std::process::exit(1);
+    }
+
+    let start = Instant::now();
+    let thorough = args.tier == "thorough";
+    let (scs, bounds, groups) = scen::enumerate(thorough);
+    let mut reporter = Reporter::new("C17");
+    let cfg = Cfg {
+        wall: Duration::from_secs(args.wall_s.unwrap_or(if thorough { 1500 } else { 50 })),
+        threads: mc_core::cli::threads(),
+        max_unknown: 12,
+    };
+    let stats = explore("C17", &scs, &bounds, &cfg, &mut reporter);
+
+    let mut ev = Evidence::new("C17", &args.tier, "fault_enumeration");
+    stats.fill(
+        &mut ev,
+        "scenarios = (request sequence | 3 concurrent requests, per request: response framing, consumer \
+         behaviour, server close kind FIN/reset at byte offset k of the response for EVERY k in 0..=len, \
+         leftover bytes after the framed end, connector limit); inside a scenario every socket answer \
+         (read: all/Pending/1 byte/next cut or every offset/half; write: all/Pending/1/half; flush, shutdown: \
+         Ready/Pending), whether the close arrives with the last bytes or one quiescent point later and whether \
+         the next request follows at once or after a settle are choice points explored up to the deviation \
+         bound. distinct = canonical observation (per request: framing, consumer, close kind+region {before \
+         head, in head, at head end, in body, at framed end}, leftover, outcome class, connection index and \
+         position on it; connections created; max open; stall). non-trivial = the execution has a close/reset \
+         fault, a leftover, more than one request, or at least one non-default socket answer.",
+    );
+    ev.set("scenario_groups", groups);
+    ev.set("violating_executions", stats.violating_executions);
+    ev.set("findings", Value::Array(reporter.summaries()));
+    ev.set("known_findings_matched", reporter.known_count() as u64);
+    ev.assume("requests are bodiless GET/HEAD to one authority over plain HTTP/1.1 (no TLS, no HTTP/2, no proxy)");
+    ev.assume("a connection handed to the pool's graceful-close task (poll_shutdown called) no longer counts as open for the limit clause");
+    ev.assume("leftover bytes arrive together with the framed response; bytes arriving after the next request was written are indistinguishable from its response and are not enumerated");
+    ev.assume("response sizes: 0, 5, 13 and 70000 body bytes; chunk lists [3,2], [3;ext,10 LWS,0;ext], [3,2]+trailer, [0x3000,1,0x8000,rest]");
+    ev.assume("pool idle/lifetime limits (std::time::Instant) and all timeouts are set to 1 h so they never fire; virtual time per execution <= 0.5 s");
+    ev.wall_s = start.elapsed().as_secs_f64();
+    let code = reporter.finish();
+    ev.violations = reporter.unknown_count() as i64;
+    ev.write();
+    println!(
+        "C17 {}: {} scenarios, {} executions checked ({} incl. parents), bound completed {}, {} classes ({} non-trivial), capped={}, {:.1}s",
+        args.tier,
+        scs.len(),
+        stats.checked,
+        stats.executions,
+        stats.bound_completed,
+        stats.classes.len(),
+        stats.nontrivial_classes.len(),
+        stats.capped,
+        start.elapsed().as_secs_f64()
+    );
+    std::process::exit(code);
 }
